@@ -157,6 +157,72 @@ func c10Families(tier string) []explore.Family {
 			}
 		}})
 	}
+	// --- scaled: long chains (7..60 branches); the first truthy condition at every position, or none
+	for _, b := range []int{7, 8, 9, 15, 16, 17, 31, 32, 33, 60} {
+		b := b
+		fams = append(fams, explore.Family{Name: fmt.Sprintf("if-chain-%d", b), Count: int64((b + 1) * 2 * 2), Run: func(i int64, r *explore.Rec) {
+			rx := radix{i}
+			hasElse, kindCase, first := rx.next(2) == 1, rx.next(2) == 1, rx.next(b+1) // first == b: none is truthy
+			var sb strings.Builder
+			var wantLog []int
+			if kindCase {
+				sb.WriteString("{% case 1000 %}")
+				for j := 0; j < b; j++ {
+					v := j
+					if j == first {
+						v = 1000
+					}
+					sb.WriteString(fmt.Sprintf("{%% when %d %%}M%d", v, j+1))
+				}
+			} else {
+				for j := 0; j < b; j++ {
+					kw, c := "elsif", "n"
+					if j == 0 {
+						kw = "if"
+					}
+					if j == first {
+						c = "z"
+					} else if j > first {
+						c = "t | fail"
+					} else if j%2 == 1 {
+						c = "f"
+					}
+					if j <= first {
+						c = fmt.Sprintf("%s | probe: %d", c, j+1)
+						wantLog = append(wantLog, j+1)
+					}
+					sb.WriteString(fmt.Sprintf("{%% %s %s %%}M%d", kw, c, j+1))
+				}
+			}
+			if hasElse {
+				sb.WriteString("{% else %}ME")
+			}
+			if kindCase {
+				sb.WriteString("{% endcase %}")
+			} else {
+				sb.WriteString("{% endif %}")
+			}
+			src := sb.String()
+			want := ""
+			if first < b {
+				want = "M" + strconv.Itoa(first+1)
+			} else if hasElse {
+				want = "ME"
+			}
+			c10.log = c10.log[:0]
+			r.Eval()
+			r.Transition()
+			r.Trace()
+			o := Render(c10.eng, src, c10Bind())
+			r.Class(fmt.Sprintf("chain%d/%v", b, kindCase))
+			r.State(fmt.Sprintf("chain:b=%d", b))
+			if o.Panic != nil || o.Err != nil || o.Out != want {
+				r.Violation("wrong-branch:long-chain", map[string]any{"template": trunc80(src), "branches": b, "first_truthy": first + 1}, want, o.String())
+			} else if !kindCase && fmt.Sprint(c10.log) != fmt.Sprint(wantLog) {
+				r.Violation("evaluation-order:long-chain", map[string]any{"template": trunc80(src), "branches": b, "first_truthy": first + 1}, fmt.Sprint(wantLog), fmt.Sprint(c10.log))
+			}
+		}})
+	}
 	// --- unless (+else), with probes
 	fams = append(fams, explore.Family{Name: "unless", Count: int64(T * 2), Run: func(i int64, r *explore.Rec) {
 		c, hasElse := c10T[int(i)%T], int(i)/T == 1
@@ -453,7 +519,7 @@ func init() {
 	explore.Register(&explore.Prop{
 		ID:    "C10",
 		Level: "model_checking",
-		Rule: "if/elsif/else chains with 1..4 (quick) / 1..6 (thorough) branches over every vector of the 11-value truthiness universe {nil,false,true,0,\"\",[],{},\"x\",1.5,nil slice,nil map} (4 values for 5-6 branches), with/without else, each condition wrapped in a logging probe filter, plus poison variants whose conditions after the selected branch fail when evaluated; unless; case with <=2 (quick) / <=3 when-clauses of 1-2 values over U2; if/unless duality over every (pair, operator) of the C09 universe; 2-level nestings and conditionals inside loops; " +
+		Rule: "if/elsif/else chains with 1..4 (quick) / 1..6 (thorough) branches over every vector of the 11-value truthiness universe {nil,false,true,0,\"\",[],{},\"x\",1.5,nil slice,nil map} (4 values for 5-6 branches), with/without else, each condition wrapped in a logging probe filter, plus poison variants whose conditions after the selected branch fail when evaluated; long if and case chains of 7..60 branches with the first truthy condition at every position; unless; case with <=2 (quick) / <=3 when-clauses of 1-2 values over U2; if/unless duality over every (pair, operator) of the C09 universe; 2-level nestings and conditionals inside loops; " +
 			"state = (construct, selected branch); transition = one program rendered; trace = program validated against the reference branch selection",
 		Assumptions: []string{
 			"case selects by the implementation's own == (validated against the reference by C09)",
